@@ -48,3 +48,31 @@ Example C17_order_example :
   /\ map p_name (params_in_order [ {| p_name := "zeta"; p_order := None; p_optional := false |};
                                    {| p_name := "alpha"; p_order := Some 1%Z; p_optional := false |} ]) = ["alpha"; "zeta"]%string.
 Proof. vm_compute. split; reflexivity. Qed.
+
+(* the composite node expressions of SHACL-AF: a union has a value exactly when a member has it, an intersection when
+   every member has it, sh:filterShape keeps exactly the values of sh:nodes that conform to the shape *)
+Theorem C17_union : forall fuel T g es a vals,
+  eval_nexpr (S fuel) T g (NUnion es) a = Ok vals ->
+  NoDup vals /\ forall x, In x vals <-> exists e vs, In e es /\ eval_nexpr fuel T g e a = Ok vs /\ In x vs.
+Proof. exact eval_union_spec. Qed.
+Print Assumptions C17_union.
+
+Theorem C17_intersection : forall fuel T g e0 es a vals,
+  eval_nexpr (S fuel) T g (NInter (e0 :: es)) a = Ok vals ->
+  NoDup vals /\ forall x, In x vals <-> forall e, In e (e0 :: es) -> exists vs, eval_nexpr fuel T g e a = Ok vs /\ In x vs.
+Proof. exact eval_inter_spec. Qed.
+Print Assumptions C17_intersection.
+
+Theorem C17_filter_shape : forall fuel T g k e a vals,
+  eval_nexpr (S fuel) T g (NFilter k e) a = Ok vals ->
+  exists vs, eval_nexpr fuel T g e a = Ok vs /\ NoDup vals /\
+    forall x, In x vals <-> In x vs /\ exists r, fn_lookup T k [x] = Some (Some r).
+Proof. exact eval_filter_spec. Qed.
+Print Assumptions C17_filter_shape.
+
+Example C17_composite_nonvacuous :
+  eval_nexpr 5 [(7%N, [IRI 2], Some (IRI 99)); (7%N, [IRI 3], None)]
+    [(IRI 1, IRI 50, IRI 2); (IRI 1, IRI 50, IRI 3); (IRI 1, IRI 51, IRI 3); (IRI 1, IRI 51, IRI 4)]
+    (NUnion [NFilter 7 (NPath (PPred 50)); NInter [NPath (PPred 50); NPath (PPred 51)]]) (IRI 1)
+  = Ok [IRI 2; IRI 3].
+Proof. vm_compute. reflexivity. Qed.
